@@ -18,7 +18,7 @@ pub static DEF: PropDef = PropDef {
         "a C rejection with FailCode is the designed exception",
     ],
     shards: (32, 128),
-    budget_ms: (10_000, 30_000),
+    budget_ms: (60_000, 180_000),
 };
 
 #[derive(Debug, Clone, PartialEq, Eq)]
